@@ -1,10 +1,12 @@
 #!/usr/bin/env python3
 """Confirm a sub-agent's seeded change in its scratch worktree: the patch applies, the demonstration fails with it and passes
 without it, and the named unit-test targets still pass with it. On success copy it to /verif/seeded/<prop>-<m>/ .
-Usage: tools/confirm_mutant.py C01 m1"""
+Usage: tools/confirm_mutant.py C01 m1 [round-prefix, e.g. 3 -> /tmp/mutwt3-C01, /tmp/mut3-C01-out/m1, stored as m3]"""
 import json, os, re, shutil, subprocess, sys
 prop, m = sys.argv[1], sys.argv[2]
-wt, out = "/tmp/mutwt-" + prop, "/tmp/mut-%s-out/%s" % (prop, m)
+rnd = sys.argv[3] if len(sys.argv) > 3 else ""
+wt, out = "/tmp/mutwt%s-%s" % (rnd, prop), "/tmp/mut%s-%s-out/%s" % (rnd, prop, m)
+store = m if not rnd else "m%d" % (int(m[1:]) + 2 * (int(rnd) - 2))
 meta = json.load(open(os.path.join(out, "meta.json")))
 def sh(cmd, cwd=None, timeout=3600):
     return subprocess.run(cmd, shell=True, cwd=cwd, stdout=subprocess.PIPE, stderr=subprocess.STDOUT, text=True, timeout=timeout)
@@ -17,18 +19,18 @@ if mm:
     for flag in ("-fsanitize=address", "-DDATASKETCHES_VERIF", "-fsanitize=undefined", "-std=c++14", "-std=c++17"):
         if flag in mm.group(0): extra += " " + flag
 std = "" if "-std=" in extra else " -std=c++11"
-cc = "g++%s -O1 -g%s %s %s/demo.cpp -o /tmp/mut-%s-out/%s/demo.bin" % (std, extra, incs, out, prop, m)
+cc = "g++%s -O1 -g%s %s %s/demo.cpp -o %s/demo.bin" % (std, extra, incs, out, out)
 def demo():
     r = sh(cc)
     if r.returncode != 0: return "COMPILE-ERROR " + r.stdout[-400:]
-    r = sh("/tmp/mut-%s-out/%s/demo.bin" % (prop, m), timeout=900)
+    r = sh(out + "/demo.bin", timeout=900)
     return r.returncode
 res = {}
 res["demo_without"] = demo()
 r = sh("git apply %s/patch.diff" % out, wt); assert r.returncode == 0, r.stdout
 try:
     res["demo_with"] = demo()
-    targets = [t for t in meta.get("tests_run", []) if t.endswith("_test")]
+    targets = [t.split()[0] for t in meta.get("tests_run", []) if t.split()[0].endswith("_test")]
     if not os.path.isdir(wt + "/_b"):
         sh("cmake -G Ninja -S %s -B %s/_b -DCMAKE_BUILD_TYPE=Release -DFETCHCONTENT_TRY_FIND_PACKAGE_MODE=ALWAYS" % (wt, wt))
     tests = {}
@@ -44,8 +46,8 @@ finally:
 ok = res["demo_without"] == 0 and res["demo_with"] not in (0,) and not str(res["demo_with"]).startswith("COMPILE") and all(v == "pass" for v in res["tests_with"].values()) and res["tests_with"]
 print(json.dumps(res), "CONFIRMED" if ok else "REJECTED")
 if ok:
-    dst = "/verif/seeded/%s-%s" % (prop, m)
+    dst = "/verif/seeded/%s-%s" % (prop, store)
     os.makedirs(dst, exist_ok=True)
     for f in ("patch.diff", "demo.cpp"): shutil.copy(os.path.join(out, f), dst)
-    meta["confirmed_by_me"] = dict(demo_exit_without=res["demo_without"], demo_exit_with=res["demo_with"], unit_tests_with_change=res["tests_with"], demo_compile=cc.replace(out, "seeded/%s-%s" % (prop, m)))
+    meta["confirmed_by_me"] = dict(demo_exit_without=res["demo_without"], demo_exit_with=res["demo_with"], unit_tests_with_change=res["tests_with"], demo_compile=cc.replace(out, "seeded/%s-%s" % (prop, store)))
     json.dump(meta, open(os.path.join(dst, "meta.json"), "w"), indent=1)
